@@ -7,8 +7,7 @@
      adds_wf          - every setting text is a well-formed SGR parameter group (the property's own premise);
      rs = false -> t0 = tdefault : without reset_start the terminal starts in its default state; WITH
                         reset_start the prior state t0 is arbitrary - the result does not depend on it.
-   teq is exact equality of terminal states; teq_disp additionally identifies "primary font selected
-   (10)" with "default font", which is what the optimiser's clear code for FONT_TYPE relies on. *)
+   teq is exact (pointwise) equality of terminal states. *)
 From AS Require Import Base Effects.
 From AS.Spec Require Import Terminal.
 From AS.Model Require Import Sgr Table Render.
@@ -42,30 +41,44 @@ Theorem C01_display_unoptimized : forall s rs re t0,
 Proof. exact render_unopt_display_bytes. Qed.
 Print Assumptions C01_display_unoptimized.
 
-(* optimize=True likewise (the optimiser is used when every setting is parsable, otherwise the code
-   falls back to the unoptimised path - both cases are covered) *)
+(* optimize=True likewise, EXACTLY (the optimiser is used when every setting is parsable, otherwise the
+   code falls back to the unoptimised path - both cases are covered; the optimiser's difference codes go
+   through the repository's REGENERATED clear table, every entry of which is shown to be the clear code
+   of its own effect - since repair F28 also for the font effect) *)
 Theorem C01_display_optimized : forall s rs re t0,
   ssorted (tbl s) -> no_esc (base s) = true -> adds_wf (tbl s) -> (rs = false -> t0 = tdefault) ->
   exists disp tfin,
     term_run t0 (to_str s true rs re) = (disp, tfin)
     /\ map fst disp = base s
     /\ (forall i, i < length (base s) -> exists st, nth_error (map snd disp) i = Some st /\
-          teq_disp st (style_of (map stxt (active_at (tbl s) i))))
-    /\ (re = true -> teq_disp tfin tdefault).
-Proof. exact render_opt_display_bytes. Qed.
+          teq st (style_of (map stxt (active_at (tbl s) i))))
+    /\ (re = true -> teq tfin tdefault).
+Proof. exact render_opt_display_bytes_exact. Qed.
 Print Assumptions C01_display_optimized.
 
-(* optimize=True and optimize=False are display-equivalent *)
+(* optimize=True and optimize=False are display-equivalent: same characters, equal states *)
 Theorem C01_optimize_equiv : forall s rs re t0,
   ssorted (tbl s) -> adds_wf (tbl s) -> (rs = false -> t0 = tdefault) ->
   exists d1 f1 d2 f2,
     tok_run t0 (to_str_toks s true rs re) = (d1, f1)
     /\ tok_run t0 (to_str_toks s false rs re) = (d2, f2)
     /\ map fst d1 = map fst d2
-    /\ Forall2 teq_disp (map snd d1) (map snd d2)
-    /\ (re = true -> teq_disp f1 f2).
-Proof. exact render_opt_equiv. Qed.
+    /\ Forall2 teq (map snd d1) (map snd d2)
+    /\ (re = true -> teq f1 f2).
+Proof. exact render_opt_equiv_exact. Qed.
 Print Assumptions C01_optimize_equiv.
+
+(* str() / format(s, '') from a terminal in its default state *)
+Theorem C01_str_display : forall s,
+  ssorted (tbl s) -> no_esc (base s) = true -> adds_wf (tbl s) ->
+  exists disp tfin,
+    term_run tdefault (render s) = (disp, tfin)
+    /\ map fst disp = base s
+    /\ (forall i, i < length (base s) -> exists st, nth_error (map snd disp) i = Some st /\
+          teq st (style_of (map stxt (active_at (tbl s) i))))
+    /\ teq tfin tdefault.
+Proof. exact render_display_exact. Qed.
+Print Assumptions C01_str_display.
 
 (* tokens and bytes: the byte-level terminal on the emitted string is the token-level run *)
 Theorem C01_bytes_are_tokens : forall toks t, Forall tok_ok toks -> term_run t (bytes_of toks) = tok_run t toks.
